@@ -31,7 +31,7 @@ def gen_cases(ctx, n_programs, n_inputs):
     rng = random.Random(ctx.rng.getrandbits(48))
     name, prog, input_rels, mk = corpus.lat_probe(rng)
     vs = [E.Variant('ser', prog, 'ascent'), E.Variant('par', prog, 'ascent_par')]
-    case = P.Case('k_' + name, prog, vs, meta={'dom': 12, 'aggs': ['count', 'neg'], 'facts': {'known_shape': 'F22'}})
+    case = P.Case('k_' + name, prog, vs, meta={'dom': 12, 'aggs': ['count', 'neg']})
     for ii in range(max(4, n_inputs // 3)):
         rows = mk(rng)
         for v in vs:
@@ -64,6 +64,9 @@ def gen_cases(ctx, n_programs, n_inputs):
             cases.append(case)
             continue
         cfg = G2.default_cfg(lattices=rng.random() < 0.5, neg=True, agg=True, p_lattice=0.3, p_neg=0.25, p_agg=0.3)
+        if len(cases) % 4 == 1:
+            # "any subset of the aggregated relation's columns bound" includes the lattice column of a (lower-stratum) lattice
+            cfg = G2.default_cfg(lattices=True, neg=True, agg=True, p_lattice=0.5, p_neg=0.35, p_agg=0.35, bind_lat_col=0.6)
         cfg.dom = rng.choice([3, 4, 5])
         cfg.n_rels, cfg.n_rules = (3, 6), (3, 8)
         prog, input_rels = G2.gen_program(rng, cfg)
@@ -75,7 +78,7 @@ def gen_cases(ctx, n_programs, n_inputs):
         kind = rng.choice(['ascent', 'ascent', 'ascent_par'])
         v = E.Variant('v0', prog, kind)
         aggs = sorted(set((i.agg if isinstance(i, Agg) else 'neg') for r in prog.rules for i in r.body if isinstance(i, (Neg, Agg))))
-        case = P.Case(name, prog, [v], meta={'dom': cfg.dom, 'aggs': aggs, 'facts': {'known_shape': 'F22' if has_f22_shape(prog) else None}})
+        case = P.Case(name, prog, [v], meta={'dom': cfg.dom, 'aggs': aggs, 'lattice_column_bound_by_value': has_f22_shape(prog)})
         loadable = [r.name for r in prog.rels]
         for ii in range(n_inputs):
             targets = input_rels if rng.random() < 0.6 else loadable
